@@ -1,3 +1,5 @@
+import os
+from pyvc import static_checks
 # Contracts for odxtools/odxlink.py and odxtools/utils.retarget_snrefs (property C10)
 from xml.etree import ElementTree
 
@@ -493,7 +495,7 @@ def _doc_frags_frame(fn):
 def doc_frags_frame(tier):
     out = []
     for path in repo_py_files():
-        rel = path.replace("/repo/", "")
+        rel = os.path.relpath(path, static_checks.REPO)
         tree = ast.parse(open(path).read())
         for fn in ast.walk(tree):
             if not isinstance(fn, (ast.FunctionDef, ast.AsyncFunctionDef)):
